@@ -93,6 +93,13 @@ def gen_c10(tier, seed):
             cases.append(Case("c10-%d" % idx, " ; ".join(parts), {"opts": o, "mask": mask if mask < 8 else 0, "after_failed_start": mask == 8},
                               "c10/%s/%d" % (sorted(o.items()), mask)))
             idx += 1
+            if ci % 4 == 1 and mask in (0, 5, 7):
+                # the same configuration in fork mode: the child side keeps running the caller's code on
+                # the streams start set up (no exec, so close-on-exec never applies)
+                fparts = (["CLOSE012 %d" % mask] if mask else []) + ["N 0", start_tokens(0, dict(opts, fork=1)), "WR 0 1", "RD 0 1 1", "RD 0 2 1", "K 0", "W 0 -1", "D 0"]
+                cases.append(Case("c10-%d" % idx, " ; ".join(fparts), {"opts": o, "mask": mask, "after_failed_start": False, "fork": 1},
+                                  "c10fork/%s/%d" % (sorted(o.items()), mask)))
+                idx += 1
     return cases
 
 
@@ -126,6 +133,8 @@ def judge_c10(case, log):
     pipe_inodes = set(t[10] for t in s["tr"] if t[0] == "pipe" and t[1] == 0 and len(t) > 10)
     eff = effective(o)
     obs["configs"].add(str(sorted(o.items())))
+    if case.meta.get("fork"):
+        obs["fork_mode_configs"] = obs.get("fork_mode_configs", 0) + 1
     lib = s.get("lib_fds", [])   # [fd, ino, fl]
     names = ("stdin", "stdout", "stderr")
     closed_class = "closed-std" if mask else "all-open"
